@@ -151,7 +151,7 @@ class AnsiDecoder:
                 # Translate in to semi-colon separated codes
                 # Ignore invalid codes, because we want to be lenient
                 codes = [
-                    min(255, int(_code)) for _code in sgr.split(";") if _code.isdigit()
+                    min(255, int(_code)) for _code in sgr.split(";") if _code.isdecimal()
                 ]
                 iter_codes = iter(codes)
                 for code in iter_codes:
